@@ -1,5 +1,9 @@
 (* C02 — dimension slicing selects exactly the requested hyperslab.
    Property statements only; every proof is `exact <lemma>` or a vm_compute witness.
+   The model describes sliceDimensions AS REPAIRED by fixes/C02-slice-orthogonal-per-axis.patch,
+   fixes/C02-zip-keep-masks.patch and fixes/C02-zip-with-ints.patch (the former _refuted theorems
+   — int+list separated by a slice axis, zipped lists with ints, lost masks — are gone; their
+   witnesses live on in corpus/C02/).
    Model: Model/Slice.v over Base/ArrFlat.v (flat C-order arrays, abstract cells: a mask is part of
    the cell, so "masks carried over" is the statement at A := value * masked). *)
 From PNC Require Import Base.Util Base.ArrFlat Model.Slice Proofs.ArrFlatProofs Proofs.SliceProofs.
@@ -55,112 +59,78 @@ Theorem C02_assignment_keeps_cell_order : forall (A : Type) tsh ssh (d : list A)
 Proof. intros A. exact assign_same_cells. Qed.
 Print Assumptions C02_assignment_keeps_cell_order.
 
-(* PARTIAL: for every rank, shape, cell type and in-range selector tuple with at most one list
-   whose "advanced" indices (ints + list) are not separated by a sliced/unselected axis — in
-   particular every int/slice-only selection and every selection with a list and no int — the code
-   path (numpy index, pre-shaped target, broadcast or reshape) is the orthogonal selection.
-   Missing: the complement, where it is false (next theorem). *)
-Theorem C02_slice_var_partial : forall (A : Type) sh rs (d : list A),
-  rs_ok sh rs = true -> length d = prodn sh -> dom_var rs = true ->
+(* the loop that applies the selectors one axis at a time, started after `outer` leading cells
+   blocks, is the orthogonal selection under every block (the induction invariant of the loop) *)
+Theorem C02_per_axis_loop : forall (A : Type) sh outer rs (d : list A),
+  rs_ok sh rs = true -> length d = outer * prodn sh ->
+  seq_take outer sh rs d = flat_map (fun o => oslice sh rs (chunk (prodn sh) o d)) (seq 0 outer).
+Proof. intros A. exact seq_take_oslice. Qed.
+Print Assumptions C02_per_axis_loop.
+
+(* FULL STRENGTH: for every rank, shape, cell type (so: data and masks) and every in-range
+   selector tuple — ints, slices, lists in ANY arrangement, no adjacency hypothesis — the code
+   path (per-axis selection, pre-shaped target, broadcast or reshape) is the orthogonal selection,
+   ints kept as length-1 axes *)
+Theorem C02_slice_var : forall (A : Type) sh rs (d : list A),
+  rs_ok sh rs = true -> length d = prodn sh ->
   impl_slice_var sh rs d (spec_shape rs) = Some (oslice sh rs d).
-Proof. intros A. exact slice_var_partial. Qed.
-Print Assumptions C02_slice_var_partial.
+Proof. intros A. exact slice_var. Qed.
+Print Assumptions C02_slice_var.
 
-(* FULL statement (no dom_var hypothesis) is FALSE of the faithful model:
-   sliceDimensions(t=1, x=[0,2]) on a (t,y,x) = (2,3,4) variable. *)
-Theorem C02_slice_var_refuted : exists sh rs (d : list nat),
-  rs_ok sh rs = true /\ length d = prodn sh /\
-  exists r, impl_slice_var sh rs d (spec_shape rs) = Some r /\ r <> oslice sh rs d
-            /\ length r = length (oslice sh rs d).
+(* FULL STRENGTH: >= 1 list on the variable (the code takes this path with >= 2), all lists of
+   length P, the first list at ANY axis, int selectors anywhere, any cells (masked or not): the
+   point loop equals the pointwise selection along one new axis placed where the first list axis
+   was, orthogonal elsewhere *)
+Theorem C02_zip_var : forall (A : Type) P sh rs (d : list A),
+  rs_ok sh rs = true -> length d = prodn sh -> lists_len P rs = true -> has_list rs = true ->
+  impl_zip_var P sh rs d (zip_shape P rs) = Some (zslice P sh rs d).
+Proof. intros A. exact zip_var. Qed.
+Print Assumptions C02_zip_var.
+
+(* size of the zipped selection: P points times the sliced axes; ints and lists contribute 1 *)
+Theorem C02_zip_spec_size : forall (A : Type) P sh rs (d : list A),
+  rs_ok sh rs = true -> length d = prodn sh -> lists_len P rs = true -> has_list rs = true ->
+  length (zslice P sh rs d) = P * prodn (point_shape rs).
+Proof. intros A. exact zslice_length. Qed.
+Print Assumptions C02_zip_spec_size.
+
+(* what is left: two or more EMPTY lists raise (np.asarray([]) is a float array) although the
+   empty selection is well defined — whole-file model, kept as a known finding *)
+Theorem C02_zip_empty_lists_refuted : exists (f : file nat) kws,
+  impl_slice_file f kws = None /\ spec_slice_file f kws <> None.
 Proof.
-  exists [2; 3; 4], [RInt 1; full_sel 3; RList [0; 2]], (seq 0 24).
-  split; [reflexivity|split; [reflexivity|]].
-  exists [12; 16; 20; 14; 18; 22]. vm_compute. repeat split; try reflexivity; discriminate.
+  exists (File [2; 3] [Var [0; 1] (seq 0 6)]), [(0, SList []); (1, SList [])].
+  vm_compute. split; [reflexivity|discriminate].
 Qed.
-Print Assumptions C02_slice_var_refuted.
-
-(* PARTIAL: >= 2 equal-length lists on one variable, the first of them on the variable's first
-   axis, no int selector on the variable, no masked cell in it: the point loop equals the pointwise
-   selection along a new leading axis.
-   UNPROVED (believed true, proof not closed in the time available; correspondence agrees on every
-   generated case): the same for a first list at ANY axis —
-     forall P sh rs d, rs_ok sh rs = true -> length d = prodn sh -> lists_len P rs = true ->
-       dom_zip rs = true -> (forall x, In x d -> um x = x /\ um0 x = x) ->
-       impl_zip_var um um0 P sh rs d (zip_shape P rs) = Some (zslice P sh rs d). *)
-Theorem C02_zip_var_partial : forall (A : Type) (um um0 : A -> A) P n sh l rs (d : list A),
-  rs_ok (n :: sh) (RList l :: rs) = true -> length d = prodn (n :: sh) ->
-  lists_len P (RList l :: rs) = true -> dom_zip (RList l :: rs) = true ->
-  (forall x, In x d -> um x = x /\ um0 x = x) ->
-  impl_zip_var um um0 P (n :: sh) (RList l :: rs) d (zip_shape P (RList l :: rs))
-  = Some (zslice P (n :: sh) (RList l :: rs) d).
-Proof. intros A. exact zip_var_axis0. Qed.
-Print Assumptions C02_zip_var_partial.
-
-(* with an int selector next to the lists the point loop puts the new axis in the wrong place:
-   sliceDimensions(a=0, b=0, c=[0,1], d=[0,1]) on a (2,2,2,2,2) variable — transposed cells *)
-Theorem C02_zip_var_refuted : exists sh rs (d : list nat),
-  rs_ok sh rs = true /\ length d = prodn sh /\ lists_len 2 rs = true /\
-  exists r, impl_zip_var (fun x => x) (fun x => x) 2 sh rs d (zip_shape 2 rs) = Some r
-            /\ r <> zslice 2 sh rs d.
-Proof.
-  exists [2; 2; 2; 2; 2], [RInt 0; RInt 0; RList [0; 1]; RList [0; 1]; full_sel 2], (seq 0 32).
-  split; [reflexivity|split; [reflexivity|split; [reflexivity|]]].
-  exists [0; 6; 1; 7]. vm_compute. split; [reflexivity|discriminate].
-Qed.
-Print Assumptions C02_zip_var_refuted.
-
-(* ... or fails outright: sliceDimensions(a=0, b=0, c=[0,1], d=[0,1]) on a 4-d variable raises
-   (np.expand_dims axis out of bounds) although the selection is well defined *)
-Theorem C02_zip_axis_error_refuted : exists sh rs (d : list nat),
-  rs_ok sh rs = true /\ length d = prodn sh /\ lists_len 2 rs = true /\
-  impl_zip_var (fun x => x) (fun x => x) 2 sh rs d (zip_shape 2 rs) = None.
-Proof.
-  exists [2; 3; 4; 2], [RInt 0; RInt 0; RList [0; 1]; RList [0; 1]], (seq 0 48).
-  vm_compute. repeat split; reflexivity.
-Qed.
-Print Assumptions C02_zip_axis_error_refuted.
-
-(* masks are NOT carried over by the point loop (np.concatenate instead of np.ma.concatenate):
-   cells are (value, masked); sliceDimensions(x=[2,0], z=[0,0]) on a masked (3,3) variable *)
-Theorem C02_zip_mask_refuted : exists sh rs (d : list (nat * bool)),
-  rs_ok sh rs = true /\ length d = prodn sh /\ lists_len 2 rs = true /\ dom_zip rs = true /\
-  exists r, impl_zip_var (fun c => (fst c, false)) (fun c => if snd c then (0, false) else c)
-                         2 sh rs d (zip_shape 2 rs) = Some r
-            /\ r <> zslice 2 sh rs d.
-Proof.
-  exists [3; 3], [RList [2; 0]; RList [0; 0]],
-         [(10, true); (11, false); (12, false); (13, false); (14, false); (15, false);
-          (16, false); (17, false); (18, false)].
-  split; [reflexivity|split; [reflexivity|split; [reflexivity|split; [reflexivity|]]]].
-  exists [(16, false); (0, false)]. vm_compute. split; [reflexivity|discriminate].
-Qed.
-Print Assumptions C02_zip_mask_refuted.
-
-(* whole-file level: the same defect seen through the file model that the correspondence runs *)
-Theorem C02_file_refuted : exists (f : file nat) kws,
-  impl_slice_file (fun x => x) (fun x => x) f kws <> spec_slice_file f kws
-  /\ spec_slice_file f kws <> None /\ impl_slice_file (fun x => x) (fun x => x) f kws <> None.
-Proof.
-  exists (File [2; 3; 4] [Var [0; 1; 2] (seq 0 24)]), [(0, SInt 1); (2, SList [0%Z; 2%Z])].
-  vm_compute. repeat split; discriminate.
-Qed.
-Print Assumptions C02_file_refuted.
+Print Assumptions C02_zip_empty_lists_refuted.
 
 (* ---- non-vacuity ---------------------------------------------------------------------------- *)
 
-(* the hypotheses of C02_slice_var_partial are met by a selection that moves cells: negative int,
-   reversed strided slice, list with a repeat — and the result is not the input *)
-Example C02_partial_inhabited :
+(* a selection that moves cells: negative int, reversed strided slice, list with a repeat *)
+Example C02_slice_var_inhabited :
   resolve 2 (SInt (-1)) = Some (RInt 1) /\
   resolve 3 (SSlice None None (Some (-2)%Z)) = Some (RSlice [2; 0]) /\
   resolve 4 (SList [0%Z; (-1)%Z; 0%Z]) = Some (RList [0; 3; 0]) /\
   let rs := [RSlice [2; 0]; RInt 1; RList [0; 3; 0]] in
-  rs_ok [3; 2; 4] rs = true /\ dom_var rs = true /\ spec_shape rs = [2; 1; 3] /\
+  rs_ok [3; 2; 4] rs = true /\ spec_shape rs = [2; 1; 3] /\
   oslice [3; 2; 4] rs (seq 0 24) = [20; 23; 20; 4; 7; 4].
 Proof. vm_compute. repeat split; reflexivity. Qed.
 
-Example C02_zip_partial_inhabited :
-  let rs := [RList [2; 0]; full_sel 2; RList [1; 1]] in
-  rs_ok [3; 2; 2] rs = true /\ lists_len 2 rs = true /\ dom_zip rs = true /\
-  zip_shape 2 rs = [2; 2] /\ zslice 2 [3; 2; 2] rs (seq 0 12) = [9; 11; 1; 3].
+(* the former defect witness (int and list separated by a sliced axis), now inside the theorem:
+   sliceDimensions(t=1, x=[0,2]) on (2,3,4) through the whole-file model *)
+Example C02_file_repaired_witness :
+  let f := File [2; 3; 4] [Var [0; 1; 2] (seq 0 24)] in
+  let kws := [(0, SInt 1); (2, SList [0%Z; 2%Z])] in
+  impl_slice_file f kws = spec_slice_file f kws /\
+  impl_slice_file f kws = Some (File [1; 3; 2] [Var [0; 1; 2] [12; 14; 16; 18; 20; 22]]).
+Proof. vm_compute. split; reflexivity. Qed.
+
+(* zipped lists with int selectors before them and a sliced axis after (former transposition
+   / AxisError witnesses) *)
+Example C02_zip_inhabited :
+  let rs := [RInt 0; RInt 0; RList [0; 1]; RList [0; 1]; full_sel 2] in
+  rs_ok [2; 2; 2; 2; 2] rs = true /\ lists_len 2 rs = true /\ has_list rs = true /\
+  zip_shape 2 rs = [1; 1; 2; 2] /\ zslice 2 [2; 2; 2; 2; 2] rs (seq 0 32) = [0; 1; 6; 7] /\
+  impl_zip_var 2 [2; 3; 4; 2] [RInt 0; RInt 0; RList [0; 1]; RList [0; 1]] (seq 0 48) [1; 1; 2]
+  = Some [0; 3].
 Proof. vm_compute. repeat split; reflexivity. Qed.
